@@ -685,7 +685,18 @@ func rulePlacement(r *Run, rule, m string, allowed []string) {
 	var ts *ast.TypeSwitchStmt
 	ast.Inspect(fn.Decl.Body, func(n ast.Node) bool {
 		if x, ok := n.(*ast.TypeSwitchStmt); ok && ts == nil {
-			if strings.Contains(ExprStr(assignRHS(x.Assign)), "current()") {
+			isCurrent := false
+			if rhs := assignRHS(x.Assign); rhs != nil {
+				ast.Inspect(rhs, func(m ast.Node) bool {
+					if c, ok := m.(*ast.CallExpr); ok {
+						if f, ok := calleeFunc(info, c); ok && FuncKey(f) == bKey("current") {
+							isCurrent = true
+						}
+					}
+					return !isCurrent
+				})
+			}
+			if isCurrent {
 				ts = x
 			}
 		}
